@@ -821,7 +821,6 @@ func skipsInSearch(p *Prog, hdrs []*ssa.BasicBlock, test *ssa.BasicBlock) []stri
 	return probs
 }
 
-
 // cmpCompareAtom rewrites "(cmp.Compare[T](A, B) OP 0)" and "(0 OP cmp.Compare[T](A, B))" to "(A OP B)".
 func cmpCompareAtom(a string) (string, bool) {
 	if !strings.HasPrefix(a, "(") || !strings.HasSuffix(a, ")") || !strings.Contains(a, "cmp.Compare[") {
